@@ -131,11 +131,40 @@ def check(cx):
     r3b = cx.rule("C16.3b", "PANIC: census of overflow-asserting additions on u8/u16 values anywhere in the library: each site is in the "
                   "justified table (bounded by construction) - a narrow counter of unbounded events (evictions, versions, ...) panics "
                   "the worker when it wraps", floor=2)
+    # justified by what is counted (the field the addition reads and writes back), not by where the addition is written
     NARROW_OK = {
-        "sql::planner::CascadesOptimizer::<'a>::explore_expr": "per-statement statistics of one optimizer run (bounded by the memo of one query)",
-        "<storage::page::BtreePageHeader as storage::core::traits::BtreeMetadata>::add_slots": "slot count of one page, bounded by the page size (<= 64 KiB)",
-        "storage::tuple::Tuple::add_version_with": "judged by C16.3",
+        "sql::planner::CascadesOptimizer.transformations_applied": "per-statement statistics of one optimizer run (bounded by the memo of one query)",
+        "storage::page::BtreePageHeader.num_slots": "slot count of one page, bounded by the page size (<= 64 KiB)",
     }
+
+    def counted(f, o, depth=0):
+        """the field an operand of the addition is read from: `type.field` (through Cell::get, casts, copies)"""
+        pl = (o.get("c") or o.get("m")) if isinstance(o, dict) else None
+        if not pl or depth > 6:
+            return None
+        for pe in reversed(pl[1:]):
+            if isinstance(pe, str) and pe.startswith(".") and ":" in pe:
+                name, _, adt = pe[1:].partition(":")
+                return "%s.%s" % (adt.split("<")[0], name)
+        l = pl[0]
+        for b_ in f.blocks:
+            for st in b_["stmts"]:
+                if st["dst"] == [l]:
+                    rv = st["rv"]
+                    if rv.get("r") in ("ref", "rawptr"):
+                        r_ = counted(f, {"c": rv["p"]}, depth + 1)
+                        if r_:
+                            return r_
+                    for o2 in (rv.get("o") or []) if isinstance(rv.get("o"), list) else []:
+                        r_ = counted(f, o2, depth + 1)
+                        if r_:
+                            return r_
+            t_ = b_["term"]
+            if t_["t"] == "call" and t_.get("dst") == [l] and t_.get("args"):
+                r_ = counted(f, t_["args"][0], depth + 1)
+                if r_:
+                    return r_
+        return None
     seen_n = set()
     for f in sorted(p.fns.values(), key=lambda x: x.id):
         if f.id.startswith("axmos_") or "::tests::" in f.id or f.id.startswith("tcp::"):
@@ -146,14 +175,17 @@ def check(cx):
                 tys = [(f.locals[op_local(o)] if op_local(o) is not None else (op_const(o) or {}).get("ty")) for o in t["mo"]]
                 if not any(x in ("u8", "u16") for x in tys):
                     continue
-                root = f.root or f.id
-                if root in seen_n:
+                what = None
+                for o in t["mo"]:
+                    what = what or counted(f, o)
+                key = what or (f.root or f.id)
+                if key in seen_n:
                     continue
-                seen_n.add(root)
-                cx.verdict(root in NARROW_OK, r3b, "narrow-add@" + root, f.where(), NARROW_OK.get(root, ""),
-                           "%s adds to a %s with overflow checking and is not in the justified table: a counter of unbounded events "
+                seen_n.add(key)
+                cx.verdict(key in NARROW_OK, r3b, "narrow-add@" + key, f.where(), NARROW_OK.get(key, ""),
+                           "%s adds to a %s (%s) with overflow checking and that counter is not in the justified table: a counter of unbounded events "
                            "panics when it wraps (e.g. the eviction counter after 65535 evictions kills every statement that evicts)" % (
-                               root, "/".join(sorted({x for x in tys if x in ("u8", "u16")}))))
+                               f.root or f.id, "/".join(sorted({x for x in tys if x in ("u8", "u16")})), key))
 
     # ---- C16.8 plan constants -------------------------------------------------------------------------------------------
     r8 = cx.rule("C16.8", "PANIC: executors (runtime::ops) do no overflow-asserting arithmetic (+, -, *) on values read from plan-operator "
